@@ -327,7 +327,7 @@ Definition judge_all (cases : list (list N)) : list (N * list N) :=
 (* ---- diagnosis: a counter-assignment (leaves that are on) for the first failing oracle check ---- *)
 Definition first_some {A} (l : list (option A)) : option A :=
   fold_right (fun o acc => match o with Some x => Some x | None => acc end) None l.
-Definition cex_of (c : case) : list (list N) :=
+Definition cex_of (c : case) : option (list (list N)) :=
   let r :=
     match c with
     | CaseSem p norm _ srt _ _ ages locks =>
@@ -340,10 +340,10 @@ Definition cex_of (c : case) : list (list N) :=
     | CaseConc c _ _ (Some o) => cex_lift c o
     | _ => None
     end in
-  match r with Some on => map enc_pol on | None => [] end.
+  match r with Some on => Some (map enc_pol on) | None => None end.
 
 (* (index, failed codes, counter-assignment) — unknown failures first *)
-Definition diagnose (cases : list (list N)) : list (N * list N * list (list N)) :=
+Definition diagnose (cases : list (list N)) : list (N * list N * option (list (list N))) :=
   let v := judge_all cases in
   let bad := filter (fun ic => negb (acceptable (snd ic))) v in
   let known := filter (fun ic => acceptable (snd ic)) v in
